@@ -52,7 +52,8 @@ Print Assumptions C17_host_comment_still_host.
 (* the classification of the code (two scans) is the specification's, for EVERY prelude without a
    `{}` block, every block, every tail, option set and state: `:host` alone (any letter case,
    comments anywhere, whitespace around) is converted; `:host` / `:host(` anywhere else among the
-   top-level tokens of the selector (`:host .a`, `.a, :host`, `a:host`; fixes a899a19 1041599) is dropped
+   top-level tokens of the selector (`:host .a`, `.a, :host`, `a:host`; fixes a899a19 1041599; `::host`, a pseudo-element
+   of that name, is not `:host`) is dropped
    with one warning and writes nothing; every other rule goes to the selector walker *)
 Theorem C17_host_classification : forall pb be body cl rest o pre endp st,
   convert_host o = true -> no_curly pre = true ->
@@ -72,5 +73,6 @@ Example C17_host_classes_inhabited :
                 Leaf TColon p; Leaf (TIdent s_host) p] = HostCombined /\
   host_kind_of [Leaf (TIdent [97]) p; Leaf TColon p; Block (TFunc s_host) p [] p true] = HostCombined /\
   host_kind_of [Leaf TColon p; Leaf (TWs [32]) p; Leaf (TIdent s_host) p] = HostNone /\
+  host_kind_of [Leaf TColon p; Leaf TColon p; Leaf (TIdent s_host) p] = HostNone /\
   host_kind_of [Leaf (TDelim 46) p; Leaf (TIdent s_host) p] = HostNone.
 Proof. exact host_classes_inhabited. Qed.
